@@ -19,6 +19,11 @@ func init() {
 		f.Nat("flagFrag", uint64(com.FlagFrag))
 		f.Nat("flagMulti", uint64(com.FlagMulti))
 		f.Nat("flagMultiDevice", uint64(com.FlagMultiDevice))
+		f.Nat("flagProxy", uint64(com.FlagProxy))
+		f.Nat("flagChannel", uint64(com.FlagChannel))
+		f.Nat("flagError", uint64(com.FlagError))
+		f.Nat("flagCrypt", uint64(com.FlagCrypt))
+		f.Nat("flagOneshot", uint64(com.FlagOneshot))
 		return nil
 	})
 	register("C01", runC01)
@@ -340,7 +345,7 @@ func runC01(c *Ctx) {
 		if len(full) <= 40000 {
 			c.Op(fmt.Sprintf("unmarshal %d %s", k, hxChunks(pieces)), strings.Join(outs, " ")+remStr(noErr, pr.Remaining()))
 		}
-		c.Eval(len(pieces) > 1 || len(ps[0].p.Tags) > 0 || len(wire) > 300, hx(wire[:min(len(wire), 64)])+fmt.Sprint(len(wire)))
+		c.Eval(len(pieces) > 1 || len(ps[0].p.Tags) > 0 || len(wire) > 300, hx(wire[:minInt(len(wire), 64)])+fmt.Sprint(len(wire)))
 		// truncations / corruptions of the first packet: model differential only
 		if len(wire) < 400 {
 			for t := 0; t < 6; t++ {
@@ -445,7 +450,7 @@ func runC01(c *Ctx) {
 				c.Op(fmt.Sprintf("unmarshalstream %s %d %s", reader, k, hxChunks(pc)), strings.Join(outs, " ")+remStr(!strings.Contains(strings.Join(outs, " "), "err "), rem()))
 			}
 		}
-		c.Eval(true, hx(enc[:min(len(enc), 64)])+fmt.Sprint(len(enc)))
+		c.Eval(true, hx(enc[:minInt(len(enc), 64)])+fmt.Sprint(len(enc)))
 	})
 }
 
@@ -466,7 +471,7 @@ func lenClassOf(n int) int {
 	return 5
 }
 
-func min(a, b int) int {
+func minInt(a, b int) int {
 	if a < b {
 		return a
 	}
